@@ -15,6 +15,37 @@ class Machinery(Exception):
     """Something in the verification machinery failed (exit 2, never a violation)."""
 
 
+class Crash(Machinery):
+    """A driver process died from a panic / fatal runtime error raised inside the code under test (the innermost
+    non-runtime frame of the panicking goroutine is a file of the repository, not of the harness). vcheck reports it as a
+    violation: no property of this list tolerates the component taking the process down."""
+
+    def __init__(self, test, excerpt, where):
+        Machinery.__init__(self, "driver %s: the code under test crashed at %s:\n%s" % (test, where, excerpt))
+        self.test, self.excerpt, self.where = test, excerpt, where
+
+
+def crash_site(out):
+    """(excerpt, file:line) when `out` (a dead driver's output) shows a panic whose innermost frame outside the Go runtime lies
+    in the repository under test; None otherwise (harness panics, synctest deadlocks, build failures stay machinery errors)."""
+    m = re.search(r"^(panic: .*|fatal error: .*)$", out, re.M)
+    if not m:
+        return None
+    tail = out[m.start():]
+    g = re.search(r"\ngoroutine \d+ [^\n]*\[running[^\n]*\]:\n(.*?)(?:\n\n|\Z)", tail, re.S) or re.search(r"\ngoroutine \d+ [^\n]*:\n(.*?)(?:\n\n|\Z)", tail, re.S)
+    if not g:
+        return None
+    repo = os.path.abspath(REPO).rstrip("/") + "/"
+    for fr in re.findall(r"^\t(/[^\s:]+\.go):(\d+)", g.group(1), re.M):
+        path = fr[0]
+        if path.startswith("/opt/veriftools/") or "/src/runtime/" in path or "/src/testing/" in path or "/src/internal/" in path:
+            continue
+        if path.startswith(repo) or path.startswith("/repo/"):
+            return (tail[:2500], "%s:%s" % (path, fr[1]))
+        return None
+    return None
+
+
 class Hang(Machinery):
     """The code under test stopped making progress inside a driver (the driver's real-time watchdog wrote hang.json and
     left with exit status 7). A check for a property that promises completion may turn this into a violation."""
@@ -95,6 +126,9 @@ def run_harness(binary, test, env=None, timeout=900, cwd=None, allow_fail=False)
     if p.returncode == 7 and e.get("VERIF_OUT") and os.path.exists(hj):
         raise Hang(test, json.load(open(hj)), e["VERIF_OUT"])
     if p.returncode != 0 and not allow_fail:
+        site = crash_site(p.stdout)
+        if site:
+            raise Crash(test, site[0], site[1])
         raise Machinery("harness driver %s died (rc=%d):\n%s" % (test, p.returncode, p.stdout[-6000:]))
     return p
 
